@@ -30,10 +30,10 @@ def model_attrs(out, key):
 
 
 @st.composite
-def matcher_case(draw, tier):
+def matcher_case(draw, tier, self_join=None):
     tokcfg = draw(gen.tokenizer_cfg())
     L, R = draw(gen.two_tables(tokcfg, tier, missing=draw(st.sampled_from(
-        ["none", "none", "left", "right", "both"])), min_rows=0))
+        ["none", "none", "left", "right", "both"])), min_rows=0, self_join=self_join))
     use_tok = draw(st.integers(0, 3)) > 0
     fn = draw(st.sampled_from(simfns.TOKEN_FNS if use_tok else simfns.STRING_FNS))
     cs = draw(gen.candset(L, R))
@@ -161,7 +161,7 @@ class Random(Component):
         return matcher_case(tier)
 
     def check(self, case, ctx):
-        L, R = canon.build_table(case["L"]), canon.build_table(case["R"])
+        L, R = canon.build_pair(case)
         C = gen.build_candset(case["candset"])
         tok = mk_tok(case["tok"]) if case["tok"] else None
         fn = simfns.get(case["fn"])
@@ -324,4 +324,16 @@ class LargeMatcher(Component):
         ctx.label("large:fn=" + case["fn"])
 
 
-COMPONENTS = [Random(), LargeMatcher()]
+class SelfJoin(Random):
+    """Candidate sets over a table paired with itself: the very same DataFrame object as
+    ltable and rtable, matching one column against itself or against a second string column."""
+    name = "selfjoin"
+
+    def examples(self, tier):
+        return 300 if tier == "quick" else 1000
+
+    def strategy(self, tier):
+        return matcher_case(tier, self_join=True)
+
+
+COMPONENTS = [Random(), LargeMatcher(), SelfJoin()]
